@@ -488,4 +488,112 @@ theorem body1 (k k1 : EvenSt OSt) (hf : k.fault = none) (hb : k.obs.bad = false)
       exact hfix
 end Body1
 
+
+/-- hand-model state after the isogeny part of iteration `j` (kernel slot `c` of exponent `v`, `XDBLs[c] = d`) -/
+def isoed (P : Params) (m : St) (j c v d : Nat) : St :=
+  { strategy := m.strategy, block := m.block - d, current := (c : Int) - 1, xdbls := upd m.xdbls c (some 0),
+    sp := fun i => if i < c then (m.sp i).map (· - 2)
+                   else if i = c then some (v - (if j ≠ 0 ∧ P.isOdd = 1 ∧ c = 0 then 1 else 0)) else m.sp i,
+    err := none,
+    trace := m.trace ++ [.iso4 j c m.block (v - (if j ≠ 0 ∧ P.isOdd = 1 ∧ c = 0 then 1 else 0)),
+                         .pop ((c : Int) - 1) (m.block - d)] }
+
+theorem isoStep_noerr (P : Params) (j : Nat) (m : St) (he0 : m.err = none) (he : (isoStep P j m).err = none) :
+    ∃ c v d : Nat, m.current = (c : Int) ∧ c < P.vla ∧ m.sp c = some v ∧ m.xdbls c = some d ∧
+      isoStep P j m = isoed P m j c v d := by
+  by_cases hidx : idxOK m.current P.vla = true
+  · have hidx' := hidx
+    simp [idxOK] at hidx'
+    obtain ⟨c, hc⟩ : ∃ c : Nat, m.current = (c : Int) := ⟨m.current.toNat, by omega⟩
+    have hidxc : idxOK (c : Int) P.vla = true := by rw [← hc]; exact hidx
+    by_cases hx : j ≠ 0 ∧ P.isOdd = 1 ∧ c = 0
+    · obtain ⟨h1, h2, rfl⟩ := hx
+      have hidx0 : idxOK 0 P.vla = true := by simpa using hidxc
+      have hc0 : m.current = 0 := by simpa using hc
+      cases hv : m.sp 0 with
+      | none => simp [isoStep, he0, hc0, hidx0, h1, h2, hv, upd, St.fail] at he
+      | some v =>
+        cases hd : m.xdbls 0 with
+        | none => simp [isoStep, he0, hc0, hidx0, h1, h2, hv, hd, upd, St.fail, St.emit] at he
+        | some d =>
+          refine ⟨0, v, d, hc, by simp [idxOK] at hidx0; omega, hv, hd, ?_⟩
+          simp [isoStep, isoed, he0, hc0, hidx0, h1, h2, hv, hd, upd, St.emit]
+    · cases hv : m.sp c with
+      | none => simp [isoStep, he0, hc, hidxc, hx, hv, St.fail] at he
+      | some v =>
+        cases hd : m.xdbls c with
+        | none => simp [isoStep, he0, hc, hidxc, hx, hv, hd, St.fail, St.emit] at he
+        | some d =>
+          refine ⟨c, v, d, hc, by omega, hv, hd, ?_⟩
+          simp [isoStep, isoed, he0, hc, hidxc, hx, hv, hd, St.emit]
+          funext i
+          by_cases hi : i = c
+          · subst hi; simp [hv]
+          · simp [hi]
+  · simp [isoStep, he0, hidx, St.fail] at he
+
+
+section Iter
+variable (T : List (List Nat)) (tpep len : Nat) (oracle : Nat → Bool) (fuel : Nat) (pl : Int) (M : Nat)
+
+/-- S3: one iteration of the main loop -/
+theorem iter_sim (H : Hyp T tpep len M fuel) (j : Nat) (hj : j < (mkParams T tpep len).eHalf) (k : EvenSt OSt) (m : St)
+    (R : Rel (mkParams T tpep len) M j k m)
+    (he : (isoStep (mkParams T tpep len) j (whileLoop (mkParams T tpep len) j m)).err = none) :
+    Rel (mkParams T tpep len) M (j + 1) (ec_eval_even_strategy_loop1_body obs T tpep oracle fuel len pl k)
+      (isoStep (mkParams T tpep len) j (whileLoop (mkParams T tpep len) j m)) := by
+  have hw : (whileLoop (mkParams T tpep len) j m).err = none := by
+    cases hq : (whileLoop (mkParams T tpep len) j m).err with
+    | none => rfl
+    | some e =>
+      rw [isoStep_err _ j _ (by simp [hq])] at he
+      simp [hq] at he
+  have R1 := while_sim T tpep len oracle fuel pl M H j hj ((mkParams T tpep len).row.length - m.strategy) fuel k m R
+    (Nat.le_refl _) (by have := H.hfur; omega) hw
+  obtain ⟨c, v, d, hc, hcv, hv, hd, hiso⟩ := isoStep_noerr _ j _ R1.me he
+  obtain ⟨lg, hk⟩ := body1 T tpep len oracle fuel pl k _ R.kf R.kb rfl c v d (mkParams T tpep len).isOdd j R1.kf R1.kb
+    (by rw [R1.cu, hc]) (by rw [R1.os]; omega) (by rw [R1.og, hv]) R1.od (by rw [R1.xs, R1.os])
+    (by rw [R1.xg, hd]; rfl) R1.jj
+  rw [hk, hiso]
+  have hodd := isOdd_le (mkParams T tpep len)
+  have hdM : d ≤ M := R1.xm c d hd
+  constructor
+  · exact R1.kf
+  · simp [isoObs, R1.kb]
+  · rfl
+  · simp [isoed, R1.st]
+  · simp [isoed, R1.bl]
+  · simp [isoed]
+  · simp
+  · exact R1.eh
+  · exact R1.od
+  · simp [IArr.set, R1.xs]
+  · intro i
+    simp only [IArr.set, isoed, upd]
+    by_cases hi : i = c
+    · subst hi; simp
+    · have : ¬ (i : Int) = (c : Int) := by omega
+      simp [hi, this, R1.xg]
+  · simp [isoObs, R1.os]
+  · intro i
+    simp only [isoObs, isoed]
+    have h1 : (0 ≤ (i : Int) ∧ (i : Int) < (c : Int)) ↔ i < c := by omega
+    have h2 : ((i : Int) = (c : Int)) ↔ i = c := by omega
+    have h3 : (mkParams T tpep len).isOdd ≠ 0 ↔ (mkParams T tpep len).isOdd = 1 := by omega
+    simp only [h1, h2, h3, R1.og]
+  · have h3 : (mkParams T tpep len).isOdd ≠ 0 ↔ (mkParams T tpep len).isOdd = 1 := by omega
+    simp [isoObs, isoed, R1.ke, kerOf, h3]
+  · intro i w
+    simp only [isoed, upd]
+    by_cases hi : i = c
+    · simp [hi]; intro h; omega
+    · simp [hi]; exact R1.xm i w
+  · have := R1.lo
+    simp only [isoed]
+    have e : (j + 1) * M = j * M + M := by rw [Nat.add_mul]; simp
+    rw [e]; push_cast at this ⊢; omega
+  · have := R1.hi; simp only [isoed]; omega
+  · exact R1.sl
+end Iter
+
 end SqiProofs.SkelEvenSim
